@@ -675,6 +675,23 @@ func init() {
 				outs, err := w.RunBehaviour([]*BCase{{ID: c.ID, Cfg: cfg, Sessions: []BSession{{Ops: append(ops, op("counters", ""))}}}})
 				behaviourOracle(c, outs, err)
 			})
+			// (6b) ... and when it names the current package: the explicit "." spelling and the bare function name
+			w.Case("function-of-the-current-package", func(c *C) {
+				cfg := &Cfg{Meta: &Meta{Pkg: P("gen"), Imports: []KV{{"pk", "fx/pk"}}}}
+				var ops []ProbeOp
+				for i, fn := range []string{`".".FnStr`, "FnInt", `".".FnInt`, "FnStr", "pk.FnStr"} {
+					n := fmt.Sprintf("f%d", i)
+					cfg.Meta.Functions = append(cfg.Meta.Functions, KV{n, fn})
+					cfg.Params = append(cfg.Params, Param{"p" + n, "%" + n + `("x", 1)%`}, Param{"m" + n, "<%" + n + "()%|%" + n + "(2)%>"})
+					ops = append(ops, op("param", "p"+n), op("param", "m"+n))
+					c.Distinct("all", "fnform-local:"+fn)
+					c.Distinct("nontrivial", "fnform-local:"+fn)
+				}
+				cfg.Services = []Service{{Name: "s", Constructor: P(`".".New`), Args: []any{"%pf0%", "%mf1%"}}}
+				ops = append(ops, op("get", "s"))
+				outs, err := w.RunBehaviour([]*BCase{{ID: c.ID, Cfg: cfg, Local: true, Sessions: []BSession{{Ops: append(ops, op("counters", ""))}}}})
+				behaviourOracle(c, outs, err)
+			})
 			// (5) a registered function whose parameter types differ from the literal types: the call happens "with those
 			// arguments", i.e. converted to the parameter types
 			w.Case("typed-function-arguments", func(c *C) {
